@@ -62,6 +62,7 @@ def dims(mode, tree="flat", nkeys=2, maxpre=2, **kw):
 # --- and which observations the property is about.
 def plan(prop, tier):
     q = tier == "quick"
+    sd0 = vlib.seed()
     P = {}
     if prop == "C01":
         P["exhaustive"] = [("c01_small", C(MaxBatches=2 if q else 3, MaxOps=2, MaxPokes=1), ALL_INVS)]
@@ -91,9 +92,100 @@ def plan(prop, tier):
                      "c10_walk_mrg": [dims("store"), dims("store", compaction="force")],
                      "c10_walk_mem": [dims("mem"), dims("mem", deferredSort=True)],
                      "c10_walk_cp": [dims("store", cachePersisted=True)]}
+        P["leads"] = [("c10_lead", C(NKeys=1, OpAlpha='{"s1","d","m1"}', MaxOps=1, MaxBatches=3), ["DirectGetChainsOnNil"], ["LeadDirectGetAgrees"])]
+        P["dims"]["c10_lead"] = [dims("store", nkeys=1), dims("mem", nkeys=1)] if False else [dims("store", nkeys=1)]
         P["relevant"] = r"^coll\.get"
         P["rule"] = ("as C01; after every step Collection.Get, Snapshot.Get and the iteration entry of every key are compared "
                      "(with and without NoCopyValue); non-trivial = two or more sections non-empty at some observation")
+
+    elif prop == "C02":
+        P["exhaustive"] = [("c02_small", C(NKeys=1, MaxBatches=2 if q else 3, MaxOps=1, MaxSnaps=2, MaxPokes=1), ["ViewIsRef", "CachedIsRef", "Structure"])]
+        P["sim"] = [("c02_walk", C(MaxBatches=6, MaxPokes=2, SimLen=20, MaxSnaps=2, MaxReopens=1), 80 if q else 500),
+                    ("c02_walk_kids", C(Tree='"a"', NKeys=1, OpAlpha='{"s1","s2","d"}', MaxOps=1, MaxBatches=6, MaxPokes=2, SimLen=20, MaxSnaps=2, MaxReopens=1), 60 if q else 400),
+                    ("c02_walk_mem", C(MaxBatches=6, MaxPokes=2, SimLen=16, MaxSnaps=2, HasLL="FALSE", LLInit="FALSE"), 30 if q else 200)]
+        P["edges"] = []
+        P["dims"] = {"c02_walk": [dims("store", compaction="force"), dims("store", compaction="allow", levelMaxSegs=1, levelMult=2), dims("store", cachePersisted=False, deferredSort=True), dims("app")],
+                     "c02_walk_kids": [dims("store", "a", 1, compaction="force"), dims("store", "a", 1)],
+                     "c02_walk_mem": [dims("mem")]}
+        P["relevant"] = r"^heldsnap"
+        P["rule"] = ("behaviours with TakeSnapshot at arbitrary states followed by batches / merger / persister / forced compaction (data file of the snapshot unlinked) / Close / reopen; "
+                     "every open snapshot (and its child snapshots) is fully re-read after every later step; non-trivial = two or more sections non-empty at some observation")
+    elif prop == "C04":
+        P["exhaustive"] = [("c04_small", C(NKeys=1, MaxBatches=2, MaxOps=1, MaxReopens=1, MaxPokes=0), ["ViewIsRef", "StoreIsPrefix", "Structure"])]
+        P["sim"] = [("c04_walk", C(MaxBatches=6, MaxPokes=2, SimLen=24, MaxReopens=2, OpAlpha='{"s1","s2","se","d"}'), 100 if q else 600),
+                    ("c04_walk_kids", C(Tree='"aa"', NKeys=1, OpAlpha='{"s1","se","d"}', MaxOps=1, MaxBatches=6, MaxPokes=2, SimLen=24, MaxReopens=2), 80 if q else 500)]
+        P["edges"] = []
+        P["dims"] = {"c04_walk": [dims("store"), dims("store", compaction="force"), dims("store", compaction="allow", levelMaxSegs=2, levelMult=2), dims("store", noSync=True, deferredSort=True)],
+                     "c04_walk_kids": [dims("store", "aa", 1), dims("store", "aa", 1, compaction="force"), dims("store", "aa", 1, compaction="allow", levelMaxSegs=1, levelMult=2)]}
+        P["relevant"] = r"^reopen|^lower"
+        P["rule"] = ("behaviours with Close at arbitrary points relative to merger/persister progress and up to 2 close/reopen cycles, store-backed; after reopen the content must be "
+                     "the reference (when the model says persistence had caught up) or the reference after a prefix; non-trivial = behaviour contains a Reopen")
+    elif prop == "C08":
+        P["exhaustive"] = [("c08_small", C(NKeys=2, OpAlpha='{"s1","d","m1"}', MaxOps=2, MaxBatches=2 if q else 3), ALL_INVS)]
+        P["sim"] = [("c08_walk", C(NKeys=2, OpAlpha='{"s1","d","m1","m2"}', MaxBatches=7, MaxPokes=2, SimLen=22, MaxReopens=1), 100 if q else 600),
+                    ("c08_walk_cp", C(NKeys=2, OpAlpha='{"s1","d","m1","m2"}', MaxBatches=6, MaxPokes=2, SimLen=20, CachePersisted="TRUE"), 60 if q else 400),
+                    ("c08_walk_kid", C(Tree='"a"', NKeys=1, OpAlpha='{"s1","d","m1","m2"}', MaxOps=1, MaxBatches=6, MaxPokes=2, SimLen=20), 60 if q else 400),
+                    ("c08_walk_mem", C(NKeys=2, OpAlpha='{"s1","d","m1","m2"}', MaxBatches=7, MaxPokes=2, SimLen=16, HasLL="FALSE", LLInit="FALSE"), 40 if q else 300)]
+        P["edges"] = []
+        P["sim"].append(("c08_walk_app", C(NKeys=2, OpAlpha='{"s1","d","m1","m2"}', MaxBatches=7, MaxPokes=2, SimLen=22, LLInit="FALSE", MaxErrs=1), 60 if q else 400))
+        P["dims"] = {"c08_walk": [dims("store"), dims("store", compaction="force"), dims("store", compaction="allow", levelMaxSegs=2, levelMult=2)],
+                     "c08_walk_app": [dims("app"), dims("app", deferredSort=True)],
+                     "c08_walk_cp": [dims("store", cachePersisted=True), dims("app", cachePersisted=True)],
+                     "c08_walk_kid": [dims("store", "a", 1), dims("store", "a", 1, compaction="force")],
+                     "c08_walk_mem": [dims("mem"), dims("mem", minMergePct=1e9)]}
+        P["leads"] = [("c08_lead", C(NKeys=1, OpAlpha='{"s1","d","m1"}', MaxOps=1, MaxBatches=3, CachePersisted="TRUE"), ["CleanKeepsMergeOps"], ["LeadViewIsRef"])]
+        P["dims"]["c08_lead"] = [dims("store", nkeys=1, cachePersisted=True)]
+        P["relevant"] = r"^(snapshot|coll|lower|reopen|heldsnap)"
+        P["rule"] = ("behaviours over set/del/mrg with the non-commutative append operator; every read path at every step; non-trivial = the behaviour contains a Merge and "
+                     "two or more sections were non-empty at some observation")
+    elif prop == "C11":
+        P["exhaustive"] = [("c11_small", C(Tree='"aa"', NKeys=1, OpAlpha='{"s1"}', MaxOps=1, MaxBatches=2 if q else 3, MaxPokes=0), ["ViewIsRef", "NamesAreRef", "StoreIsPrefix", "Structure"])]
+        P["sim"] = [("c11_walk", C(Tree='"aa"', NKeys=1, OpAlpha='{"s1","s2","d"}', MaxOps=1, MaxBatches=7, MaxPokes=2, SimLen=24, MaxReopens=1), 120 if q else 800),
+                    ("c11_walk_ab", C(Tree='"ab"', NKeys=1, OpAlpha='{"s1","d"}', MaxOps=1, MaxBatches=7, MaxPokes=2, SimLen=22, MaxReopens=1), 80 if q else 500),
+                    ("c11_walk_mem", C(Tree='"aa"', NKeys=1, OpAlpha='{"s1","s2","d"}', MaxOps=1, MaxBatches=7, MaxPokes=2, SimLen=16, HasLL="FALSE", LLInit="FALSE"), 40 if q else 300)]
+        P["edges"] = []
+        P["dims"] = {"c11_walk": [dims("store", "aa", 1), dims("store", "aa", 1, compaction="force"), dims("store", "aa", 1, compaction="allow", levelMaxSegs=1, levelMult=2)],
+                     "c11_walk_ab": [dims("store", "ab", 1), dims("store", "ab", 1, compaction="allow", levelMaxSegs=2, levelMult=2)],
+                     "c11_walk_mem": [dims("mem", "aa", 1)]}
+        P["leads"] = [("c11_lead", C(Tree='"a"', NKeys=1, OpAlpha='{"s1"}', MaxOps=1, MaxBatches=3, MaxPokes=0), ["ChildLLByNameOnly"], ["LeadViewIsRef"])]
+        P["dims"]["c11_lead"] = [dims("store", "a", 1), dims("store", "a", 1, compaction="force")]
+        P["relevant"] = r"^(snapshot|lower|reopen|heldsnap)\.(names|child)|^(snapshot|lower|reopen|heldsnap)\.(get|iter)#child"
+        P["rule"] = ("behaviours over a tree of child names (create, write, child-only batches, delete, recreate, nested children); names and content of every child at every "
+                     "nesting level read from collection snapshots, the store snapshot and after reopen; non-trivial = some child was deleted or recreated in the behaviour")
+    elif prop == "C13":
+        P["exhaustive"] = [("c13_small", C(MaxBatches=2 if q else 3, MaxOps=2, MaxErrs=2, LLInit="FALSE"), ["ViewIsRef", "OverlayIsRef", "StoreIsPrefix", "DrainedIsPersisted", "Structure"])]
+        P["sim"] = [("c13_walk", C(MaxBatches=7, MaxPokes=2, SimLen=22, MaxErrs=3, LLInit="FALSE", OpAlpha='{"s1","s2","d","m1"}'), 120 if q else 800),
+                    ("c13_walk_cp", C(MaxBatches=7, MaxPokes=2, SimLen=22, MaxErrs=3, LLInit="FALSE", CachePersisted="TRUE"), 60 if q else 400)]
+        P["edges"] = []
+        P["dims"] = {"c13_walk": [dims("app"), dims("app", deferredSort=True, minMergePct=1e9)],
+                     "c13_walk_cp": [dims("app", cachePersisted=True)]}
+        P["relevant"] = r"^lower|^snapshot"
+        P["rule"] = ("behaviours with an application lower level applying the documented protocol, any pattern of LowerLevelUpdate failures; after every step the application's "
+                     "store must be the reference after a prefix and the collection view the full reference; non-trivial = the behaviour contains a failed update or two non-empty sections")
+    elif prop == "C20":
+        P["exhaustive"] = [("c20_small", C(MaxBatches=2 if q else 3, MaxOps=2), ["GaugesZeroImpliesPersisted", "DrainedIsPersisted"])]
+        P["sim"] = [("c20_walk", C(MaxBatches=7, MaxPokes=2, SimLen=20), 80 if q else 500),
+                    ("c20_walk_kids", C(Tree='"aa"', NKeys=1, OpAlpha='{"s1","d"}', MaxOps=1, MaxBatches=7, MaxPokes=2, SimLen=20), 120 if q else 800),
+                    ("c20_walk_cp", C(MaxBatches=7, MaxPokes=2, SimLen=20, CachePersisted="TRUE"), 40 if q else 300)]
+        P["edges"] = []
+        P["dims"] = {"c20_walk": [dims("store"), dims("app"), dims("store", compaction="force")],
+                     "c20_walk_kids": [dims("store", "aa", 1), dims("store", "aa", 1, compaction="force")],
+                     "c20_walk_cp": [dims("store", cachePersisted=True)]}
+        P["leads"] = [("c20_lead", C(Tree='"a"', NKeys=1, OpAlpha='{"s1","d"}', MaxOps=1, MaxBatches=2, MaxPokes=0), ["GaugesRootOnly"], ["LeadGaugesZeroImpliesPersisted"])]
+        P["dims"]["c20_lead"] = [dims("store", "a", 1)]
+        P["relevant"] = r"^gauges0"
+        P["rule"] = ("Stats() sampled after every step of every behaviour; whenever all three dirty gauges are zero the lower level's own snapshot is compared with the reference; "
+                     "non-trivial = the gauges were zero at some observation after the first batch")
+    elif prop == "C19":
+        P["exhaustive"] = [("c19_small", C(MaxBatches=2, MaxOps=2, OpAlpha='{"s1","se","d"}'), ["ViewIsRef", "StoreIsPrefix"])]
+        P["sim"] = [("c19_walk", C(NKeys=3, MaxBatches=6, MaxPokes=2, SimLen=22, MaxReopens=1, OpAlpha='{"s1","s2","se","d","m1"}'), 100 if q else 600)]
+        P["edges"] = []
+        P["dims"] = {"c19_walk": [dims("store", nkeys=3, concr="edge", seed=sd0 + i, compaction=c, deferredSort=(i % 2 == 1), cachePersisted=False)
+                                  for i, c in enumerate(["disable", "force", "allow", "disable"] if q else ["disable", "force", "allow"] * 4)]
+}
+        P["relevant"] = r"^(snapshot|coll|lower|reopen|heldsnap)"
+        P["rule"] = ("the data-path behaviours replayed under seeded adversarial concretisations (empty key, 0x00/0xFF, magic-like bytes, prefix-sharing keys, empty values); "
+                     "non-trivial = two or more sections non-empty at some observation")
     else:
         raise Infra("no plan for %s" % prop)
     return P
@@ -110,12 +202,52 @@ def generate(rep, work, name, consts, kind, n, sd):
         per = max(1, n // 8)
         res = vlib.run_tlc("MCColl.tla", cfg, work, simulate=(per, 40, sd), workers=8, timeout=600, beh_sink=raw.append)
         rep.transitions += res.generated
+    elif kind == "lead":
+        devs_, invs = n
+        consts["Devs"] = vlib.tla_set(devs_)
+        vlib.write_cfg(cfg, consts, invariants=invs, view="view")
+        res = vlib.run_tlc("MCColl.tla", cfg, work, timeout=1200, beh_sink=raw.append)
+        rep.add_tlc(name + " (lead harvesting, Devs=%s)" % ",".join(devs_), res, consts)
+        behs = vlib.dedup_behaviours(raw)
+        behs.sort(key=len)
+        cap = 150 if os.environ.get("VERIF_TIER", "quick") == "quick" else 1500
+        if len(behs) > cap:
+            step = len(behs) / float(cap)
+            behs = [behs[int(i * step)] for i in range(cap)]
+        rep.extra.setdefault("leads", []).append({"config": name, "devs": devs_, "violating_states": len(raw), "replayed": len(behs)})
+        return behs
     else:
         vlib.write_cfg(cfg, consts, view="view", action_constraints=["Edge"])
         res = vlib.run_tlc("MCColl.tla", cfg, work, timeout=1200, beh_sink=raw.append)
         rep.add_tlc(name + " (edge generation)", res, consts)
     behs = vlib.dedup_behaviours(raw)
     return behs
+
+
+def nontrivial(prop, r, beh):
+    acts = [s["act"] for s in beh]
+    def has_op(o):
+        return any(s["act"] == "ExecuteBatch" and any(op["o"] == o for n in s["arg"].values() for op in n["ops"]) for s in beh)
+    if prop == "C04":
+        return "Reopen" in acts
+    if prop == "C08":
+        return has_op("mrg") and r.get("cross", False)
+    if prop == "C11":
+        seen = set()
+        for s in beh:
+            if s["act"] != "ExecuteBatch":
+                continue
+            for p, n in s["arg"].items():
+                if p and n["kind"] == "del" and p in seen:
+                    return True
+                if p and n["kind"] == "ops":
+                    seen.add(p)
+        return False
+    if prop == "C13":
+        return any(s["act"] == "PersisterUpdate" and not s["arg"]["ok"] for s in beh) or r.get("cross", False)
+    if prop == "C20":
+        return r.get("gz0", False)
+    return r.get("cross", False)
 
 
 def classify(rep, prop, relevant, findings, results, behs, d, cfgname):
@@ -125,15 +257,17 @@ def classify(rep, prop, relevant, findings, results, behs, d, cfgname):
             rep.infra.append("%s dims=%s behaviour %d: %s" % (cfgname, json.dumps(d), r["id"], r.get("infra")))
             continue
         rep.traces += 1
-        if r.get("cross"):
+        if nontrivial(prop, r, behs[r["id"]]):
             rep.nontrivial.add((cfgname, r["id"]))
         reported = False
         for st in r.get("steps", []):
             rep.drift += len(st.get("drift", []))
+            whats = sorted(set(m2["what"] + ("#child" if m2.get("path") else "") for m2 in st.get("mismatches", [])))
             for mm in st.get("mismatches", []):
+                mm["step_whats"] = whats
                 if reported:
                     break
-                if not rx.search(mm["what"]):
+                if not rx.search(mm["what"] + ("#child" if mm.get("path") else "")):
                     continue
                 m = re.search(r" pred=(.*)$", mm.get("want", ""))
                 if m:
@@ -171,7 +305,9 @@ def run(prop, tier):
         else:
             rep.exhaustive = True
     # 2+3. behaviours and replay
-    gens = [("sim", n, c, cnt) for (n, c, cnt) in P["sim"]] + [("edges", n, c, 0) for (n, c) in P["edges"]]
+    os.environ["VERIF_TIER"] = tier
+    gens = [("sim", n, c, cnt) for (n, c, cnt) in P["sim"]] + [("edges", n, c, 0) for (n, c) in P["edges"]] \
+        + [("lead", n, c, (dv, iv)) for (n, c, dv, iv) in P.get("leads", [])]
     for kind, name, consts, cnt in gens:
         behs = generate(rep, work, name, consts, kind, cnt, sd)
         if not behs:
@@ -199,10 +335,42 @@ def run(prop, tier):
     return rep.finish()
 
 
+def replay(prop, path):
+    """Re-run one recorded violation (a replay file) against the current tree."""
+    vlib.build_harness(("replay",))
+    obj = json.load(open(path))
+    work = vlib.scratch(prop + "-replay")
+    bp = os.path.join(work, "one.jsonl")
+    vlib.write_behaviours(bp, [obj["behaviour"]])
+    results, infra = vlib.run_replay(bp, obj["dims"], nshards=1)
+    import shutil
+    shutil.rmtree(work, ignore_errors=True)
+    if infra or not results or results[0]["status"] == "infra":
+        log("INFRA:", infra, results[:1])
+        return 2
+    for i, st in enumerate(obj["behaviour"]):
+        log("step %2d %-16s %s" % (i, st["act"], json.dumps(st["arg"])))
+    r = results[0]
+    for st in r.get("steps", []):
+        for mm in st.get("mismatches", []):
+            print("step %d (%s): %s path=%r key=%s got=%s want=%s" % (st["step"], st["act"], mm["what"], mm.get("path"), mm.get("key"), mm.get("got"), mm.get("want")))
+        for dr in st.get("drift", []):
+            print("step %d (%s): drift: %s" % (st["step"], st["act"], dr))
+    if r["status"] == "mismatch":
+        print("VIOLATION property=%s replay=%s" % (prop, path))
+        return 1
+    print("replay: no mismatch on the current tree")
+    return 0
+
+
 if __name__ == "__main__":
     import argparse
     ap = argparse.ArgumentParser()
     ap.add_argument("prop")
     ap.add_argument("--tier", default=os.environ.get("VERIF_TIER", "quick"))
+    ap.add_argument("--replay", default=None)
     a = ap.parse_args()
-    vlib.main_wrapper(lambda: run(a.prop, a.tier))
+    if a.replay:
+        vlib.main_wrapper(lambda: replay(a.prop, a.replay))
+    else:
+        vlib.main_wrapper(lambda: run(a.prop, a.tier))
